@@ -9,9 +9,10 @@ package main
 
 import (
 	"fmt"
+	"os"
+	"regexp"
 	"sort"
 	"strings"
-	"sync"
 )
 
 type Sx struct {
@@ -118,6 +119,8 @@ type instCtx struct {
 	decls   []string
 	sortOf  map[string]string // skolem -> sort
 	hasQ    bool
+	budget  int // per-quantifier instance budget (0 = default)
+	aliases map[string][]string // merge constant -> printed branches of its defining ite (transitively)
 }
 
 func binders(b *Sx) (names, sorts []string) {
@@ -288,12 +291,9 @@ func containsAny(x *Sx, bound map[string]bool) bool {
 
 type ctxKey string
 
-// mergeAliases maps a merge constant to the printed branches of its defining ite (transitively); filled per query.
-var mergeAliases = map[string][]string{}
-var mergeMu sync.Mutex
 
 // contexts of argument position k of application x (others printed if ground w.r.t. bound)
-func ctxKeys(x *Sx, k int, bound map[string]bool) []ctxKey {
+func (ic *instCtx) ctxKeys(x *Sx, k int, bound map[string]bool) []ctxKey {
 	h := x.head()
 	if h == "" {
 		return nil
@@ -314,10 +314,14 @@ func ctxKeys(x *Sx, k int, bound map[string]bool) []ctxKey {
 			o := x.L[3-k]
 			if !containsAny(o, bound) {
 				keys = append(keys, ctxKey("+|"+o.String()))
+				// the same offset read from another heap version (map-of-slices headers) exchanges candidates
+				if ck := canonHeapNames(o.String()); ck != o.String() {
+					keys = append(keys, ctxKey("+~"+ck))
+				}
 			}
 			// an offset that is a merge constant (= (ite c a b)) also stands for its branches
 			if o.isAtom() {
-				for _, alias := range mergeAliases[o.A] {
+				for _, alias := range ic.aliases[o.A] {
 					keys = append(keys, ctxKey("+|"+alias))
 				}
 			}
@@ -335,6 +339,13 @@ func arrayRoot(a *Sx) string {
 	for a.head() == "store" && len(a.L) == 4 {
 		a = a.L[1]
 	}
+	if a.head() == "select" && len(a.L) == 3 {
+		// a row of a two-level heap (map contents, slice contents): all versions and rows share candidates
+		return "sel(" + arrayRoot(a.L[1]) + ")"
+	}
+	if a.head() == "ite" && len(a.L) == 4 {
+		return arrayRoot(a.L[2])
+	}
 	s := a.String()
 	// named heap versions: Hm.key!n, Hh.key!n, H.key!n, H0.key -> key
 	for _, p := range []string{"Hm.", "Hh.", "Hc.", "H0.", "H."} {
@@ -350,7 +361,7 @@ func arrayRoot(a *Sx) string {
 }
 
 // collectGround records ground argument terms per context over formula x (not descending into quantifier bodies).
-func collectGround(x *Sx, into map[ctxKey]map[string]*Sx) {
+func (ic *instCtx) collectGround(x *Sx, into map[ctxKey]map[string]*Sx) {
 	if x.isAtom() {
 		return
 	}
@@ -359,7 +370,7 @@ func collectGround(x *Sx, into map[ctxKey]map[string]*Sx) {
 		return
 	}
 	for k := 1; k < len(x.L); k++ {
-		for _, key := range ctxKeys(x, k, nil) {
+		for _, key := range ic.ctxKeys(x, k, nil) {
 			m := into[key]
 			if m == nil {
 				m = map[string]*Sx{}
@@ -372,24 +383,24 @@ func collectGround(x *Sx, into map[ctxKey]map[string]*Sx) {
 		}
 	}
 	for _, c := range x.L {
-		collectGround(c, into)
+		ic.collectGround(c, into)
 	}
 }
 
 // varContexts finds the contexts in which bound variable v occurs directly as an argument.
-func varContexts(x *Sx, v string, bound map[string]bool, out map[ctxKey]bool) {
+func (ic *instCtx) varContexts(x *Sx, v string, bound map[string]bool, out map[ctxKey]bool) {
 	if x.isAtom() {
 		return
 	}
 	for k := 1; k < len(x.L); k++ {
 		if x.L[k].isAtom() && x.L[k].A == v {
-			for _, key := range ctxKeys(x, k, bound) {
+			for _, key := range ic.ctxKeys(x, k, bound) {
 				out[key] = true
 			}
 		}
 	}
 	for _, c := range x.L {
-		varContexts(c, v, bound, out)
+		ic.varContexts(c, v, bound, out)
 	}
 }
 
@@ -438,9 +449,8 @@ const maxInstTotal = 6000
 
 // instantiate performs rounds of context-based instantiation. Returns the added instance assertions.
 func (ic *instCtx) instantiate(asserts []*Sx, rounds int) []*Sx {
-	mergeMu.Lock()
-	defer mergeMu.Unlock()
-	mergeAliases = map[string][]string{}
+	mergeAliases := map[string][]string{}
+	ic.aliases = mergeAliases
 	for _, a := range asserts {
 		if a.head() == "=" && len(a.L) == 3 && a.L[1].isAtom() && a.L[2].head() == "ite" && len(a.L[2].L) == 4 {
 			mergeAliases[a.L[1].A] = append(mergeAliases[a.L[1].A], a.L[2].L[2].String(), a.L[2].L[3].String())
@@ -475,7 +485,7 @@ func (ic *instCtx) instantiate(asserts []*Sx, rounds int) []*Sx {
 	for r := 0; r < rounds; r++ {
 		ground := map[ctxKey]map[string]*Sx{}
 		for _, a := range all {
-			collectGround(a, ground)
+			ic.collectGround(a, ground)
 		}
 		var newOnes []*Sx
 		for _, a := range all {
@@ -504,6 +514,9 @@ func (ic *instCtx) instantiate(asserts []*Sx, rounds int) []*Sx {
 				// candidate selection is sequential: a variable whose contexts mention other bound variables gets its
 				// candidates after those have been substituted
 				budget := maxInstPerQuant
+				if ic.budget > 0 {
+					budget = ic.budget
+				}
 				var rec func(b *Sx, rest []string, tuple string)
 				rec = func(b *Sx, rest []string, tuple string) {
 					if budget <= 0 {
@@ -534,11 +547,11 @@ func (ic *instCtx) instantiate(asserts []*Sx, rounds int) []*Sx {
 						ctxs := map[ctxKey]bool{}
 						if len(patTerms) > 0 {
 							for _, pt := range patTerms {
-								varContexts(pt, n, restBound, ctxs)
+								ic.varContexts(pt, n, restBound, ctxs)
 							}
 						}
 						if len(ctxs) == 0 {
-							varContexts(b, n, restBound, ctxs)
+							ic.varContexts(b, n, restBound, ctxs)
 						}
 						typed := 0
 						for c := range ctxs {
@@ -555,8 +568,22 @@ func (ic *instCtx) instantiate(asserts []*Sx, rounds int) []*Sx {
 						}
 						set := map[string]*Sx{}
 						for c := range ctxs {
+							if c == "+any" {
+								continue
+							}
 							for s, t := range ground[c] {
 								set[s] = t
+							}
+						}
+						fallback := false
+						if len(set) == 0 && ctxs["+any"] && os.Getenv("VERIF_NOANY") == "" {
+							// offsets equal only semantically (other heap version, merged header): any index term
+							// (goal-related ones first, few of them)
+							fallback = true
+							for s, t := range ground["+any"] {
+								if len(s) < 160 {
+									set[s] = t
+								}
 							}
 						}
 						if len(set) == 0 {
@@ -580,6 +607,9 @@ func (ic *instCtx) instantiate(asserts []*Sx, rounds int) []*Sx {
 						per := budget
 						if len(others) > 0 && per > 24 {
 							per = 24 // leave room for the remaining variables
+						}
+						if fallback && per > 16 {
+							per = 16
 						}
 						for ci, s := range keys {
 							if ci >= per || budget <= 0 {
@@ -700,4 +730,11 @@ func genericCtx(c ctxKey) bool {
 	s := string(c)
 	return strings.HasPrefix(s, "root|") || strings.HasPrefix(s, "dyntype|") || strings.HasPrefix(s, "subtag|") ||
 		strings.HasPrefix(s, "strlen|") || s == "selany" || strings.HasPrefix(s, "selroot|ghost_") || strings.HasPrefix(s, "select|H0.ghost_")
+}
+
+var heapVerRe = regexp.MustCompile(`\b(?:Hm|Hh|Hc|Hx|H0|H)\.([A-Za-z0-9_.#:$-]+?)(?:![0-9]+)?([ )])`)
+
+// canonHeapNames replaces versioned heap array names by their key (H.map_dom!70, H0.map_dom -> map_dom).
+func canonHeapNames(s string) string {
+	return heapVerRe.ReplaceAllString(s, "$1$2")
 }
